@@ -253,7 +253,6 @@ func c14Fallback(c *Ctx) {
 	c.Ev.Sample(map[string]any{"part": "udp-fallback", "tcp_side": kinds, "deadline_ms": "300-900", "exchanges": n})
 }
 
-
 // c14Exhaust: a pipelined connection that has handed out all of its 65536 wire ids while its last
 // queries are still waiting for their (slow) replies. New exchanges must move on to another
 // connection and succeed; none of them has dialled the worn-out connection itself.
